@@ -107,4 +107,37 @@ def c10Tokens : Handler := fun c => do
             ("spec", listJ (listJ tokJ) spec)])
   pure (objJ [("results", Json.arr out)])
 
-def main : IO Unit := Proto.run [("c10.slice", c10Slice), ("c10.tokens", c10Tokens)]
+/-- Directory level: one utterance at a time, the way `_chunk_torch_spect_data_dir_do_work` calls the
+slicer (`N = 1`, no lengths) and the token chunker (the utterance's tokens against every window).
+Reply per utterance: model windows, spec windows, and per spec window the specified token chunk. -/
+def c10Dir : Handler := fun c => do
+  let policy ← getStr c "policy"
+  let wt ← getStr c "wt" >>= parseWt
+  let lobe ← getNat c "lobe"
+  let vo ← getBool c "valid"
+  let partialOk ← getBool c "partial"
+  let retain ← getBool c "retain"
+  let utts ← getList pure c "utts"
+  let mut out : Array Json := #[]
+  for u in utts do
+    let T ← getNat u "T"
+    let ali ← getList jsonToInt u "ali"
+    let ref ← getList parseTok u "ref"
+    let R := ref.length
+    let (inp, specW) := match policy with
+      | "fixed" => (Input.feats 1 T, SlicePolicy.fixed lobe wt vo [T])
+      | "ali" => (Input.ali 1 T [ali], SlicePolicy.ali lobe wt vo [ali] [T])
+      | _ => (Input.ref 1 R [ref], SlicePolicy.ref lobe wt vo [ref] [R] [none])
+    let empty := match policy with
+      | "ref" => R == 0
+      | _ => T == 0
+    let specW := if empty then [] else specW
+    let model := match sliceSpectData inp none none wt vo lobe with
+      | .ok ws => listJ winJ ws
+      | .error .shape => strJ "error:shape"
+    let toks := specW.map fun w => SlicePolicy.tokensRow partialOk retain ref (w.start, w.stop) none
+    out := out.push (objJ [("model", model), ("spec", listJ winJ specW),
+      ("tokens", listJ (listJ tokJ) toks)])
+  pure (objJ [("utts", Json.arr out)])
+
+def main : IO Unit := Proto.run [("c10.slice", c10Slice), ("c10.tokens", c10Tokens), ("c10.dir", c10Dir)]
